@@ -34,6 +34,46 @@ static void dumpBases(std::string& out, const DOMNode* n, long& count) {
     for (DOMNode* c = n->getFirstChild(); c; c = c->getNextSibling()) dumpBases(out, c, count);
 }
 
+// Document-level accessors of the merged document, next to what the child list says (the reference):
+//   #DOCEL   <{ns}local of getDocumentElement() | \N>  <1 if it is the first element child of the Document>  <number of element children>
+//   #DOCTYPE <name of getDoctype() | \N>  <name of the first DocumentType child | \N>
+//   #DEPAR   <getDocumentElement()->getParentNode()==doc>  <->getOwnerDocument()==doc>
+//   #NSLOOK  prefix uri  doc.lookupNamespaceURI(prefix) elem.~  doc.lookupPrefix(uri) elem.~  doc.isDefaultNamespace(uri) elem.~
+//            one row per namespace declaration attribute on the element child (elem = that child, found through the child list);
+//            Document::lookup* dereference getDocumentElement(), so with a NULL document element the row says NULL-DOCEL instead
+static void dumpDocAccessors(std::string& out, DOMDocument* doc) {
+    DOMNode* firstEl = 0; DOMNode* firstDt = 0; long nel = 0;
+    for (DOMNode* c = doc->getFirstChild(); c; c = c->getNextSibling()) {
+        if (c->getNodeType() == DOMNode::ELEMENT_NODE) { nel++; if (!firstEl) firstEl = c; }
+        if (c->getNodeType() == DOMNode::DOCUMENT_TYPE_NODE && !firstDt) firstDt = c;
+    }
+    DOMElement* de = doc->getDocumentElement();
+    char b[64];
+    std::string nm = "\\N";
+    if (de) { const XMLCh* ns = de->getNamespaceURI(); nm = "{" + (ns ? esc(ns) : std::string()) + "}" + esc(de->getLocalName() ? de->getLocalName() : de->getNodeName()); }
+    snprintf(b, sizeof b, "\t%d\t%ld\n", (de && (DOMNode*)de == firstEl) ? 1 : 0, nel);
+    out += "#DOCEL\t" + nm + b;
+    DOMDocumentType* dt = doc->getDoctype();
+    out += "#DOCTYPE\t" + (dt ? esc(dt->getName()) : std::string("\\N")) + "\t" + (firstDt ? esc(firstDt->getNodeName()) : std::string("\\N")) + "\n";
+    if (de) { snprintf(b, sizeof b, "#DEPAR\t%d\t%d\n", de->getParentNode() == (DOMNode*)doc ? 1 : 0, de->getOwnerDocument() == doc ? 1 : 0); out += b; }
+    else out += "#DEPAR\tNULL-DOCEL\n";
+    if (!firstEl) return;
+    DOMNamedNodeMap* at = firstEl->getAttributes();
+    for (XMLSize_t i = 0; at && i < at->getLength(); i++) {
+        DOMAttr* a = (DOMAttr*)at->item(i);
+        if (!XMLString::equals(a->getNamespaceURI(), XMLUni::fgXMLNSURIName)) continue;
+        const XMLCh* prefix = XMLString::equals(a->getNodeName(), XMLUni::fgXMLNSString) ? 0 : a->getLocalName();
+        const XMLCh* uri = a->getValue();
+        const XMLCh* luri = (uri && *uri) ? uri : 0;
+        std::string row = "#NSLOOK\t" + (prefix ? esc(prefix) : std::string()) + "\t" + esc(uri);
+        if (!de) { out += row + "\tNULL-DOCEL\n"; continue; }
+        row += "\t" + escN(doc->lookupNamespaceURI(prefix)) + "\t" + escN(firstEl->lookupNamespaceURI(prefix));
+        row += "\t" + escN(luri ? doc->lookupPrefix(luri) : 0) + "\t" + escN(luri ? firstEl->lookupPrefix(luri) : 0);
+        row += std::string("\t") + (doc->isDefaultNamespace(luri) ? "1" : "0") + "\t" + (firstEl->isDefaultNamespace(luri) ? "1" : "0");
+        out += row + "\n";
+    }
+}
+
 static std::string hXinc(const Req& r) {
     std::string api = get(r, "api", "dom");
     Feat f(get(r, "feat", "ns=1;xinclude=1"));
@@ -51,14 +91,14 @@ static std::string hXinc(const Req& r) {
             p.parse(top.c_str());
             DOMDocument* dd = p.getDocument();
             DomDumpOpts o;
-            if (dd) { dumpDomNode(d, dd, o); tail += "#DOCURI\t" + escN(dd->getDocumentURI()) + "\n"; dumpBases(tail, dd, nodes); }
+            if (dd) { dumpDomNode(d, dd, o); tail += "#DOCURI\t" + escN(dd->getDocumentURI()) + "\n"; dumpBases(tail, dd, nodes); dumpDocAccessors(tail, dd); }
         } else if (api == "domls") {
             CapDOMLS p; p.xd = &d; configDOMLS(p, f, 0);
             LSErr eh; p.getDomConfig()->setParameter(XMLUni::fgDOMErrorHandler, &eh);
             if (useRes) p.getDomConfig()->setParameter(XMLUni::fgXercesEntityResolver, (const void*)(XMLEntityResolver*)&res);
             DOMDocument* dd = p.parseURI(top.c_str());
             DomDumpOpts o;
-            if (dd) { dumpDomNode(d, dd, o); tail += "#DOCURI\t" + escN(dd->getDocumentURI()) + "\n"; dumpBases(tail, dd, nodes); }
+            if (dd) { dumpDomNode(d, dd, o); tail += "#DOCURI\t" + escN(dd->getDocumentURI()) + "\n"; dumpBases(tail, dd, nodes); dumpDocAccessors(tail, dd); }
         } else {
             d.line("EXC\tBADAPI");
         }
